@@ -92,10 +92,11 @@ Hypothesis choice_length : forall s ids, 0 <= n <= Z.of_nat (length ids) -> leng
 Hypothesis choice_incl : forall s ids, incl (choice s ids n) ids.
 Hypothesis choice_NoDup : forall s ids, NoDup ids -> NoDup (choice s ids n).
 
-Notation sample_at := (sample_at id_eqb rs_randint choice fd n seed).
-Notation outputs := (outputs id_eqb rs_randint choice fd n seed).
-Notation state_after := (state_after id_eqb rs_randint choice fd n seed).
-Notation gstep := (gstep id_eqb rs_randint choice fd n seed).
+Notation prs := (get_pseudo_random_state rs_randint).
+Notation sample_at := (sample_at id_eqb prs choice fd n seed).
+Notation outputs := (outputs id_eqb prs choice fd n seed).
+Notation state_after := (state_after id_eqb prs choice fd n seed).
+Notation gstep := (gstep id_eqb prs choice fd n seed).
 
 Lemma lookup_In id : In id (map fst fd) -> exists d, lookup id_eqb id fd = Some d /\ In (id, d) fd.
 Proof.
